@@ -1771,7 +1771,19 @@ class Executor(object):
                 self._for_covers[ckey] = (chk.check() == z3.sat)
             if self.feasible(sb):
                 sb.env[node.target.id] = idx
+                # ghost names for values at the head of *this* iteration (after the invariant has been assumed)
+                for n_, e_ in (spec.get("let_body") or {}).items():
+                    sb.env[n_] = self.eval_spec(e_, sb, ctx)
                 for s2, oc in self.exec_block(node.body, sb, ctx):
+                    if (oc is None or oc[0] in ("continue", "break")) and spec.get("ensures_iteration"):
+                        # clauses about one iteration (relating its end to its head), proved however the iteration ends (normally or by break)
+                        tr_ = ".".join("%d%s" % (ln, "T" if b else "F") for ln, b in s2.trace[len(s0.trace):])
+                        for i_, cl_ in enumerate(spec["ensures_iteration"]):
+                            try:
+                                goal_ = self.eval_spec(cl_, s2, ctx)
+                            except KeyError:
+                                continue          # a name the clause mentions is not bound on this path (the statement defining it was not reached)
+                            self.prove(s2, ctx, goal_, "post", "iteration#loop%d.%d[%s]" % (k, i_, tr_), lineno)
                     if oc is None or oc[0] == "continue":
                         tr = ".".join("%d%s" % (ln, "T" if b else "F") for ln, b in s2.trace[len(s0.trace):])
                         s2.env["iter_index"] = idx + 1
